@@ -106,7 +106,8 @@ def nontrivial(prog, steps):
 
 def main(argv):
     return rcheck.run(
-        PID, argv, module=None, theorems=[], gen=gen, oracle=rcheck.ownership_failures, nontrivial=nontrivial,
+        PID, argv, module="C04", theorems=["C04_program_final_state", "C04_dispose_not_alive", "C04_dispose_leak_free", "C04_dispose_no_edges",
+                                        "C04_dispose_cleanups_exact", "C04_cleanups_conserved", "C04_disposed_node_stays_clean"], gen=gen, oracle=rcheck.ownership_failures, nontrivial=nontrivial,
         rule=("random ownership trees (scopes, effects creating effects/memos/signals/cleanups, run_in) x interleavings of "
               "re-runs, explicit disposals (also from callbacks and cleanups), closed by disposal of the root; non-trivial = "
               ">= 2 cleanups ran and some node was destroyed before the root disposal; distinct = distinct program text"),
